@@ -4,3 +4,4 @@ import Theorems.Lemmas.Session
 import Theorems.Lemmas.Credit
 import Theorems.C07
 import Theorems.C08
+import Theorems.C09
